@@ -386,6 +386,11 @@ def gen_c14_session(seed: int, index: int, ctx: GenCtx, faulty: bool, max_ops: i
     nops = rng.randrange(3, max_ops + 1)
     keep_export_dir = rng.random() < 0.3  # the export directory outlives the runs of this session
     b.durable = keep_export_dir
+    if keep_export_dir:
+        # what the directory carries from one run to the next only shows when there are several
+        # runs: these sessions are CLI-heavy (at first they were not, about one session per quick run
+        # had two file reports in one directory, and S14-27/S14-28 were missed a second time)
+        enabled = [k for k in enabled if k != "cli"] + ["cli"] * max(4, len(enabled) // 2)
     if rng.random() < 0.3:
         b.gc_knob()
     while len(b.ops) < nops:
